@@ -227,19 +227,26 @@ inductive FKind where
   | handle | bytesio
   deriving Repr, DecidableEq
 
+/-- `new_data = Bits(f)` in `Array.fromfile` (array_.py:374). -/
+def fromfileSource (file : Bytes) : FKind → Except Err Store
+  | .handle => setFile file none none
+  | .bytesio => .ok (Store.frombytes file)
+
+/-- `items_to_append = max_items if n is None else min(n, max_items)` (array_.py:376). -/
+def itemsToAppend (n : Option Int) (maxItems : Int) : Int :=
+  match n with
+  | none => maxItems
+  | some n => min n maxItems
+
 /-- `Array.fromfile(f, n)` (array_.py:369) for an item size with `length = bitlength = isz`:
     ValueError when trailing bits are present; otherwise the first `min(n, max_items)` whole items are appended,
     and EOFError is raised afterwards when fewer than `n` were available. -/
 def arrayFromfile (data : Bits) (isz : Nat) (file : Bytes) (fk : FKind) (n : Option Int) : Except Err Bits :=
   if isz = 0 then .error (.internal "ZeroDivisionError") else
   if data.length % isz ≠ 0 then .error .value else
-  (match fk with
-   | .handle => setFile file none none
-   | .bytesio => .ok (Store.frombytes file)) >>= fun newData =>
+  fromfileSource file fk >>= fun newData =>
   let maxItems : Int := (newData.len / isz : Nat)
-  let items : Int := match n with
-    | none => maxItems
-    | some n => min n maxItems
+  let items := itemsToAppend n maxItems
   -- new_data[0 : items * bitlength]  (Bits.__getitem__ → getslice_withstep_msb0, same clamping as getslice)
   let piece := (newData.getslice (some 0) (some (items * isz))).buf
   match n with
